@@ -626,7 +626,7 @@ package engine
 //@   ensures[one-alternative] len(result.delayed) == 1 && result.delayed[0] == k && !result.repeat && result.recover == nil && result.err == nil
 
 //@ func (*Promise).child
-//@   property C03 C13
+//@   property C03 C13 C05
 //@   requires p != nil && len(p.delayed) > 0 && p.delayed[0] != nil
 //@   modifies heap
 //@   ghost-set polled 0
@@ -634,6 +634,7 @@ package engine
 //@   ensures[non-nil] result != nil
 //@   assume-call preserves p.delayed, p.repeat, elems(p.delayed)
 //@   at-call dynamic requires[leftmost] fn == p.delayed[0] && a0 == ctx
+//@   at-call ensurePromise requires[a-panic-of-the-alternative-is-turned-into-the-promise-returned] a0 == &promise
 //@   ensures[consume] !old(p.repeat) ==> len(p.delayed) == old(len(p.delayed)) - 1 && backing(p.delayed) == old(backing(p.delayed)) && offset(p.delayed) == old(offset(p.delayed)) + 1
 //@   ensures[order] !old(p.repeat) ==> forall j int :: 0 <= j && j < len(p.delayed) ==> p.delayed[j] == old(p.delayed[j + 1])
 //@   ensures[repeat] old(p.repeat) ==> len(p.delayed) == old(len(p.delayed)) && backing(p.delayed) == old(backing(p.delayed)) && offset(p.delayed) == old(offset(p.delayed)) && p.delayed[0] == old(p.delayed[0])
@@ -1433,6 +1434,7 @@ package engine
 //@ extern math/big.ParseFloat
 //@   pure
 //@   allocates
+//@   requires[a-base-the-function-accepts-any-other-panics] base == 0 || base == 2 || base == 8 || base == 10 || base == 16
 //@   ensures err != nil ==> f == nil
 //@   ensures err == nil ==> f != nil
 //@ extern math/big.NewFloat
@@ -1643,10 +1645,139 @@ package engine
 //@       exists m int :: 0 <= m && m < Compound.Arity(c) && result == Term.Compare(Compound.Arg(c, m), Compound.Arg(r as Compound, m), env) &&
 //@           forall j int :: 0 <= j && j < m ==> Term.Compare(Compound.Arg(c, j), Compound.Arg(r as Compound, j), env) == 0
 
+//@ -- custom atomic terms (streams): after the four standard atomic types (that they come before every compound cannot be said for the generic body: the type parameter may itself be a Compound for all the body knows)
+//@ func CompareAtomic
+//@   property C08
+//@   nosafety
+//@   let r = resolve(env, t)
+//@   at-call (*Env).Resolve requires[compares-the-resolved-term] a0 == env && a1 == t
+//@   ensures[after-variables-numbers-and-atoms] r is Variable || r is Float || r is Integer || r is Atom ==> result == 1
+
+//@ -- the compound representations: every one of them is ordered by CompareCompound of itself, the other term and the caller's environment
+//@ func (*compound).Compare
+//@   property C08
+//@   nosafety
+//@   modifies nothing
+//@   requires t != nil
+//@   bind r = CompareCompound#1
+//@   at-call CompareCompound requires[the-order-of-compounds-on-itself-the-other-term-and-the-callers-environment] a0 == c && a1 == t && a2 == env
+//@   defines result == Term.Compare(c, t, env)
+//@   ensures[representation-independent] called(r) && result == r
+
+//@ func list.Compare
+//@   property C08
+//@   nosafety
+//@   modifies nothing
+//@   requires t != nil
+//@   bind r = CompareCompound#1
+//@   at-call CompareCompound requires[the-order-of-compounds-on-itself-the-other-term-and-the-callers-environment] a0 == l && a1 == t && a2 == env
+//@   defines result == Term.Compare(l, t, env)
+//@   ensures[representation-independent] called(r) && result == r
+
+//@ func (*partial).Compare
+//@   property C08
+//@   nosafety
+//@   modifies nothing
+//@   requires t != nil
+//@   bind r = CompareCompound#1
+//@   at-call CompareCompound requires[the-order-of-compounds-on-itself-the-other-term-and-the-callers-environment] a0 == p && a1 == t && a2 == env
+//@   defines result == Term.Compare(p, t, env)
+//@   ensures[representation-independent] called(r) && result == r
+
+//@ func charList.Compare
+//@   property C08
+//@   nosafety
+//@   modifies nothing
+//@   requires t != nil
+//@   bind r = CompareCompound#1
+//@   at-call CompareCompound requires[the-order-of-compounds-on-itself-the-other-term-and-the-callers-environment] a0 == c && a1 == t && a2 == env
+//@   defines result == Term.Compare(c, t, env)
+//@   ensures[representation-independent] called(r) && result == r
+
+//@ func codeList.Compare
+//@   property C08
+//@   nosafety
+//@   modifies nothing
+//@   requires t != nil
+//@   bind r = CompareCompound#1
+//@   at-call CompareCompound requires[the-order-of-compounds-on-itself-the-other-term-and-the-callers-environment] a0 == c && a1 == t && a2 == env
+//@   defines result == Term.Compare(c, t, env)
+//@   ensures[representation-independent] called(r) && result == r
+
+//@ func procedureIndicator.Compare
+//@   property C08
+//@   nosafety
+//@   modifies nothing
+//@   requires t != nil
+//@   bind r = CompareCompound#1
+//@   at-call CompareCompound requires[the-order-of-compounds-on-itself-the-other-term-and-the-callers-environment] a0 == p && a1 == t && a2 == env
+//@   defines result == Term.Compare(p, t, env)
+//@   ensures[representation-independent] called(r) && result == r
+
+//@ -- compare/3: the order atom is the one that names the outcome of Term.Compare on the two terms as given, in the caller's environment
+//@ spec fun unifies(x Term, y Term, p Term, a Atom) bool = (x == p && y is Atom && (y as Atom) == a) || (y == p && x is Atom && (x as Atom) == a)
+//@ func Compare
+//@   property C08
+//@   nosafety
+//@   bind o = engine.Term.Compare#1
+//@   at-call engine.Term.Compare requires[the-two-terms-in-the-order-given-in-the-callers-environment] a0 == term1 && a1 == term2 && a2 == env
+//@   at-call Unify requires[the-standard-order-of-the-two-terms-decides] called(o)
+//@   at-call Unify requires[greater] o == 1 ==> unifies(a1, a2, order, atomGreaterThan)
+//@   at-call Unify requires[less] o == -1 ==> unifies(a1, a2, order, atomLessThan)
+//@   at-call Unify requires[equal] o == 0 ==> unifies(a1, a2, order, atomEqual)
+//@   at-call Unify requires[the-answer-goes-to-the-callers-continuation-under-the-callers-bindings] a0 == vm && a3 == k && a4 == env
+
+//@ -- Env.set (sort/2, setof/3): sorts the terms given ascending by Term.Compare in its environment, keeps a term only when it differs from the one kept before it
+//@ func (*Env).set
+//@   property C08
+//@   nosafety
+//@   frozen e, ts
+//@   bind lst = List#1
+//@   at-call sort.Slice requires[sorts-the-terms-given] a0 is []Term && (a0 as []Term) == ts
+//@   at-call append requires[kept-terms-stay-in-the-order-visited] a0 == us && len(a1) == 1
+//@   bind c = engine.Term.Compare#1
+//@   at-call engine.Term.Compare requires[each-term-is-compared-with-the-last-one-kept] len(us) > 0 && a0 == us[len(us) - 1] && a1 == t
+//@   at-call append requires[a-term-equal-to-the-last-one-kept-is-dropped] len(a0) > 0 ==> called(c) && c != 0
+//@   at-call append requires[every-other-term-is-kept] a1[0] == t
+//@   at-call List requires[the-list-of-the-terms-kept] a0 == us
+//@   ensures[the-list-of-the-terms-kept] called(lst) && result == lst
+
+//@ func (*Env).set$1
+//@   property C08
+//@   nosafety
+//@   ensures[ascending-in-the-standard-order-under-this-environment] result <==> Term.Compare(ts[param(0)], ts[param(1)], e) == -1
+
+//@ -- sort/2: the elements of the list, resolved, go through Env.set (sort + removal of duplicates) and its result is what the second argument receives
+//@ func Sort
+//@   property C08
+//@   nosafety
+//@   bind cur = (*ListIterator).Current#1
+//@   bind s = (*Env).set#1
+//@   at-call append requires[every-element-of-the-list-is-collected] a0 == elems && len(a1) == 1 && called(cur) && a1[0] == resolve(env, cur)
+//@   at-call (*Env).set requires[the-elements-collected-ordered-in-the-callers-environment] a0 == env && a1 == elems
+//@   at-call Unify requires[the-sorted-duplicate-free-list] called(s) && ((a1 == sorted && a2 == s) || (a2 == sorted && a1 == s))
+//@   at-call Unify requires[the-answer-goes-to-the-callers-continuation-under-the-callers-bindings] a0 == vm && a3 == k && a4 == env
+
 //@ func KeySort
 //@   property C08
 //@   nosafety
 //@   at-call sort.SliceStable requires[keysort-is-a-stable-sort] true
+//@   frozen env
+//@   bind cur = (*ListIterator).Current#1
+//@   bind lst = List#1
+//@   bind pr = (*Env).Resolve#1
+//@   at-call (*Env).Resolve#1 requires[the-element-the-iteration-over-the-first-argument-is-at] called(cur) && a1 == cur
+//@   at-call append requires[every-pair-of-the-list-is-collected-in-list-order] a0 == elems && len(a1) == 1 && called(pr) && a1[0] == pr
+//@   at-call sort.SliceStable requires[sorts-the-pairs-collected] a0 is []Term && (a0 as []Term) == elems
+//@   at-call List requires[the-pairs-as-sorted] a0 == elems
+//@   at-call Unify requires[the-sorted-list-of-pairs] called(lst) && ((a1 == sorted && a2 == lst) || (a2 == sorted && a1 == lst))
+//@   at-call Unify requires[the-answer-goes-to-the-callers-continuation] a0 == vm && a3 == k
+
+//@ func KeySort$1
+//@   property C08
+//@   nosafety
+//@   ensures[ascending-by-key-in-the-standard-order-under-the-callers-bindings] result <==>
+//@       Term.Compare(Compound.Arg(elems[param(0)] as Compound, 0), Compound.Arg(elems[param(1)] as Compound, 0), env) == -1
 
 //@ ---------------------------------------------------------------- database updates (C09)
 
@@ -2190,6 +2321,8 @@ package engine
 //@   loop 2 invariant true
 //@   loop 3 invariant true
 //@   loop 4 invariant true
+//@   loop 4 invariant 0 <= i
+//@   at-call Compound.Arg requires[only-arguments-the-compound-has] 0 <= a1 && a1 < Compound.Arity(a0)
 //@ func (*clause).compileBodyArg
 //@   property C05
 //@   safety only tassert
@@ -2199,6 +2332,8 @@ package engine
 //@   loop 2 invariant true
 //@   loop 3 invariant true
 //@   loop 4 invariant true
+//@   loop 4 invariant 0 <= i
+//@   at-call Compound.Arg requires[only-arguments-the-compound-has] 0 <= a1 && a1 < Compound.Arity(a0)
 
 //@ ---------------------------------------------------------------- ensure_loaded/consult: the "loaded" mark (C13, C20)
 
